@@ -1488,7 +1488,7 @@ func init() {
 	register(&property{
 		Meta: propertyMeta{
 			ID:          "C02",
-			Explanation: "Positional alignment 'i-th capture group <-> i-th variable name' (not the substring equality): (C02-ALIGN) on every path through one iteration of the variable loop of parseParamRoute exactly one name is appended to Route.matches and exactly one capture group '(' + v + ')' is appended for the same (n, v) that goodRegexString checked. (C02-KEYS) in matchRegex every iteration of the loop over the submatches stores an entry keyed by a variable name, so the key set of Params is the route's variable list (a variable of an unmatched optional part maps to \"\"). (C02-GROUPS) every store of a compiled pattern is followed on all paths by a registration-time panic unless regex.NumSubexp() == len(route.matches), which discharges the index r.matches[i] in matchRegex for all inputs. (C02-WRITERS) who-may-write Route.matches and Context.Params; Params is the second result of the one QuickMatch call whose first result is the dispatched route. (C02-CACHE) the cached copy carries exactly the pair the miss path returned; a hit returns (v, v.params); static routes return nil parameters. (C03-POOL, ownership clause) for every sync.Pool other than the context pool: no value that derives from Pool.Get is stored into a field of a module struct other than Context, and no argument of Pool.Put derives from a load of such a field.",
+			Explanation: "Positional alignment 'i-th capture group <-> i-th variable name' (not the substring equality): (C02-ALIGN) on every path through one iteration of the variable loop of parseParamRoute exactly one name is appended to Route.matches and exactly one capture group '(' + v + ')' is appended for the same (n, v) that goodRegexString checked. (C02-KEYS) in matchRegex every iteration of the loop over the submatches stores an entry keyed by a variable name, so the key set of Params is the route's variable list (a variable of an unmatched optional part maps to \"\"). (C02-GROUPS) every store of a compiled pattern is followed on all paths by a registration-time panic unless regex.NumSubexp() == len(route.matches), which discharges the index r.matches[i] in matchRegex for all inputs. (C02-WRITERS) who-may-write Route.matches and Context.Params; Params is the second result of the one QuickMatch call whose first result is the dispatched route. (C02-CACHE) the cached copy carries exactly the pair the miss path returned; a hit returns (v, v.params); static routes return nil parameters. (C03-POOL, ownership clause) for every sync.Pool other than the context pool: no value that derives from Pool.Get is stored into a field of a module struct other than Context, and no argument of Pool.Put derives from a load of such a field. (C02-STATIC) every insert into the static table, in any function, is dominated (or reached on every path) by the variable-free test of the stored route's own whole path — isFixedPath(route.path) or the same test in line — because the static tier of match answers with no parameters.",
 			NotDecided:  []string{"values equal the path substrings; values satisfy the variable's regex; empty string for absent optional parts (run-time regexp behaviour)"},
 			Assumptions: []string{"regexp.FindAllStringSubmatch returns 1+NumSubexp entries per match (documented)"},
 		},
